@@ -567,12 +567,17 @@ func (x *Explorer) assign(lhs, rhs ast.Expr, stmt ast.Node, st *State) {
 		x.Hooks.PreAssign(x, lhs, rhs, stmt, st)
 	}
 	x.kill(lhs, st)
-	// a local bool assigned a constant becomes a fact
-	if id, ok := Unparen(lhs).(*ast.Ident); ok && rhs != nil && id.Name != "_" {
-		if tv, ok := x.Fn.Info().Types[rhs]; ok && tv.Value != nil && tv.Value.Kind() == constant.Bool {
-			if k, ok := x.key(id); ok {
-				x.meta(k, id)
-				st.Facts[k] = constant.BoolVal(tv.Value)
+	// a bool variable or field assigned a constant becomes a fact
+	if rhs != nil {
+		target := Unparen(lhs)
+		_, isId := target.(*ast.Ident)
+		_, isSel := target.(*ast.SelectorExpr)
+		if id, ok := target.(*ast.Ident); (isId && id.Name != "_") || (!ok && isSel) {
+			if tv, ok := x.Fn.Info().Types[rhs]; ok && tv.Value != nil && tv.Value.Kind() == constant.Bool {
+				if k, ok := x.key(target); ok {
+					x.meta(k, target)
+					st.Facts[k] = constant.BoolVal(tv.Value)
+				}
 			}
 		}
 	}
